@@ -35,6 +35,7 @@ type FuncContract struct {
 	Pure     bool
 	Line     int
 	Lemma    bool
+	Options  map[string]bool
 }
 
 type SpecFunc struct {
@@ -87,7 +88,7 @@ func (fc *FuncContract) clauses(kind string) []*Clause {
 var clauseKeywords = map[string]bool{
 	"requires": true, "ensures": true, "invariant": true, "step": true, "decreases": true,
 	"modifies": true, "func": true, "spec": true, "loop": true, "inline": true, "trusted": true,
-	"ufun": true, "ghost": true, "axiom": true, "lemma": true, "pure": true, "assume": true, "end": true,
+	"ufun": true, "ghost": true, "option": true, "axiom": true, "lemma": true, "pure": true, "assume": true, "end": true,
 }
 
 // parseContractFile reads //@ lines.
@@ -204,6 +205,16 @@ func parseContractFile(path string) (*ContractFile, error) {
 			curFunc.Inline = true
 		case "pure":
 			curFunc.Pure = true
+		case "option":
+			if curFunc == nil {
+				return nil, fmt.Errorf("line %d: option outside func", it.line)
+			}
+			if curFunc.Options == nil {
+				curFunc.Options = map[string]bool{}
+			}
+			for _, o := range strings.Fields(rest) {
+				curFunc.Options[o] = true
+			}
 		case "trusted":
 			if curUFun != nil {
 				curUFun.Reason = rest
